@@ -101,8 +101,11 @@ func (ft *FuncTr) call(st *State, at *Term, in ssa.Instruction, c *ssa.CallCommo
 	if cname != "" && os.Getenv("GOVC_CALLS") != "" {
 		fmt.Fprintf(os.Stderr, "call %s#%d at %s\n", lastName(cname), ft.curCallNth, ft.posStr(in.Pos()))
 	}
-	if err := ft.anchored(st, nil, at, in, cname, true); err != nil {
-		return Val{}, err
+	ft.curCallArgs, ft.curCallCommon = args, c
+	errA := ft.anchored(st, nil, at, in, cname, true)
+	ft.curCallArgs, ft.curCallCommon = nil, nil
+	if errA != nil {
+		return Val{}, errA
 	}
 	var preCall *State
 	if len(ft.c.Anchored) > 0 {
@@ -147,6 +150,14 @@ func (ft *FuncTr) anchored(st *State, preCall *State, at *Term, in ssa.Instructi
 		env.pre = preCall
 		if l := ft.loopOf[in.Block()]; l != nil && l.head != nil {
 			env.headSt = l.head
+		}
+		if before && ft.curCallCommon != nil {
+			// arg0, arg1, ...: the call's arguments (for a method call arg0 is the receiver)
+			for k, av := range ft.curCallArgs {
+				if av.T != nil && k < len(ft.curCallCommon.Args) {
+					env.vars[fmt.Sprintf("arg%d", k)] = SV{T: av.T, Ty: ft.curCallCommon.Args[k].Type()}
+				}
+			}
 		}
 		if !before && ft.lastCallRes != nil && ft.lastCallSig != nil {
 			// ret / ret0, ret1, ...: the values the call returned
@@ -204,6 +215,9 @@ func (ft *FuncTr) callWith(st *State, at *Term, in ssa.Instruction, c *ssa.CallC
 	}
 	for i, a := range args {
 		if a.T == nil {
+			if ft.abstract && con == nil {
+				return ft.abstractCall(st, at, sig, fn, name)
+			}
 			return Val{}, unsupported(fmt.Sprintf("call argument %d is not a term", i))
 		}
 		argT = append(argT, a.T)
@@ -219,6 +233,9 @@ func (ft *FuncTr) callWith(st *State, at *Term, in ssa.Instruction, c *ssa.CallC
 			r := ft.h.fnApp(st, fnv.T, sig, argT)
 			return Val{T: r}, nil
 		}
+	}
+	if con == nil && ft.abstract {
+		return ft.abstractCall(st, at, sig, fn, name)
 	}
 	if con == nil {
 		if name == "" {
